@@ -2,7 +2,7 @@
    produces.  Statements only; proofs in QTools/LayerMap.v.  Bit widths, integer bits, the
    number of accumulated terms, every operand code and every input in the stated range are
    inside the forall. *)
-From Coq Require Import ZArith QArith Qminmax List.
+From Coq Require Import ZArith QArith Qminmax List Bool.
 From QV Require Import Base.ZQ Base.FL QTools.Types QTools.Ops QTools.LayerMap.
 Import ListNotations.
 Open Scope Z_scope.
@@ -32,6 +32,34 @@ Theorem C18_preactivation_fits_accumulator_with_bias :
   code_ok acc (dot kws kxs * 2 ^ (F - (frac_bits w + frac_bits x)) + kb * 2 ^ (F - frac_bits b)).
 Proof. exact dense_preact_fits_with_bias. Qed.
 Print Assumptions C18_preactivation_fits_accumulator_with_bias.
+
+(* ternary / binary (+-1) kernels (mux multiplier) *)
+Theorem C18_preactivation_fits_accumulator_ternary_binary_kernel :
+  forall w x kernel_ops ts kxs,
+  (q_mode w = 2 \/ q_mode w = 3) -> q_mode x = 0 ->
+  (name_has_binary (q_name w) || name_has_ternary (q_name w))%bool = true -> q_sgn w = true ->
+  0 <= mag_bits x -> 1 <= kernel_ops ->
+  all_pairs (fun t kx => (t = -1 \/ t = 0 \/ t = 1) /\ code_ok x kx /\ ~ (t = -1 /\ q_sgn x = true /\ kx = fix_lo x)) ts kxs ->
+  Z.of_nat (length ts) <= kernel_ops ->
+  let acc := layer_acc w x kernel_ops None in
+  frac_bits acc = frac_bits x /\ code_ok acc (dot ts kxs).
+Proof. exact tern_preact_fits_no_bias. Qed.
+Print Assumptions C18_preactivation_fits_accumulator_ternary_binary_kernel.
+
+(* power-of-two kernels (shifter multiplier): weight = (negative?, exponent) *)
+Theorem C18_preactivation_fits_accumulator_po2_kernel :
+  forall w x kernel_ops (ws : list (bool * Z)) kxs,
+  q_mode w = 1 -> q_mode x = 0 -> 0 <= mag_bits x -> 1 <= kernel_ops ->
+  let mn := fst (get_exp w) in let mx := snd (get_exp w) in
+  length ws = length kxs ->
+  (forall we k, In (we, k) (combine ws kxs) ->
+     - mn <= snd we <= mx /\ code_ok x k /\ (fst we = true -> q_sgn w = true) /\
+     ~ (fst we = true /\ q_sgn x = true /\ k = fix_lo x /\ snd we = mx)) ->
+  Z.of_nat (length ws) <= kernel_ops ->
+  let acc := layer_acc w x kernel_ops None in
+  frac_bits acc = frac_bits x + mn /\ code_ok acc (po2_dot mn ws kxs).
+Proof. exact po2_preact_fits_no_bias. Qed.
+Print Assumptions C18_preactivation_fits_accumulator_po2_kernel.
 
 (* the corner excluded above is a genuine overflow of the reported type (known finding) *)
 Theorem C18_most_negative_corner_refuted :
